@@ -271,6 +271,10 @@ func (fr *Frame) applySpecClosure(spec *FuncSpec, key string, sig *types.Signatu
 			if i < len(rec.bindings) {
 				if pt, ok := fv.Type().Underlying().(*types.Pointer); ok {
 					env.vars[fv.Name()] = SV{t: fc.load(cur, rec.bindings[i].t, pt.Elem()), typ: pt.Elem()}
+					if env.fvAddr == nil {
+						env.fvAddr = map[string]SV{}
+					}
+					env.fvAddr[fv.Name()] = SV{t: rec.bindings[i].t, typ: pt.Elem()}
 				}
 			}
 		}
